@@ -21,7 +21,7 @@ import (
 // each filesystem-step hook that names the bucket and a generated schedule picks who moves.
 
 type opR struct {
-	Kind string `json:"kind"` // delbucket | put | mpucreate | mpucomplete | mkbucket | get
+	Kind string `json:"kind"` // delbucket | put | put2 | mpucreate | mpucomplete | mkbucket | get
 	Key  int    `json:"key"`
 	By   string `json:"by,omitempty"` // mkbucket: the account creating the bucket ("" = root)
 }
@@ -31,6 +31,8 @@ type caseR struct {
 	Schedule []int `json:"schedule"`
 	Versions bool  `json:"versioned"` // bucket versioning enabled
 	Fresh    bool  `json:"fresh"`     // the bucket does not exist when the race starts (competing creations)
+	Stall    []int `json:"stall,omitempty"` // stall[i] = for how many scheduler moves operation i stays parked while others can move
+	StallAt  []int `json:"stall_at,omitempty"` // stall_at[i] = how many of its steps operation i takes before it stalls
 }
 
 var raceKeys = []string{"a", "dir/b"}
@@ -79,6 +81,7 @@ func execR(c caseR) (overlap bool, err error) {
 		ups[i] = upl{ini.UploadId, s3c.ETag(pr.Header.Get("ETag"))}
 	}
 	hasPrepared := len(ups) > 0
+	firstVid := map[int]string{}
 	s := sched.New(len(c.Ops))
 	s.Filter = func(_ int, point string, args []string) bool {
 		// steps on the bucket itself and on the keys of the race; not the per-request reads of bucket settings
@@ -89,6 +92,17 @@ func execR(c caseR) (overlap bool, err error) {
 			return false
 		}
 		return true
+	}
+	if len(c.Stall) > 0 {
+		s.Starve, s.StarveFrom = map[int]int{}, map[int]int{}
+		for i, n := range c.Stall {
+			if n > 0 && i < len(c.Ops) {
+				s.Starve[i] = n
+				if i < len(c.StallAt) {
+					s.StarveFrom[i] = c.StallAt[i]
+				}
+			}
+		}
 	}
 	verifhook.SetHandler(s.Hook)
 	defer verifhook.SetHandler(nil)
@@ -104,6 +118,14 @@ func execR(c caseR) (overlap bool, err error) {
 			r, err = cl.Call("PUT", "/"+b, nil, nil, nil)
 		case "put":
 			r, err = cl.Call("PUT", path, nil, nil, body(i))
+		case "put2":
+			// the same client writes the key twice in a row: in a versioned bucket the first write becomes an
+			// archived version when the second one lands
+			r, err = cl.Call("PUT", path, nil, nil, body(i+100))
+			if err == nil && r.OK() {
+				firstVid[i] = r.Header.Get("x-amz-version-id")
+				r, err = cl.Call("PUT", path, nil, nil, body(i))
+			}
 		case "mpucreate":
 			r, err = cl.Call("POST", path, s3c.Q("uploads", ""), nil, nil)
 		case "mpucomplete":
@@ -165,7 +187,7 @@ func execR(c caseR) (overlap bool, err error) {
 		ack := resp[i].OK()
 		key := raceKeys[o.Key%len(raceKeys)]
 		switch o.Kind {
-		case "put", "mpucomplete":
+		case "put", "put2", "mpucomplete":
 			if !ack {
 				continue
 			}
@@ -178,7 +200,7 @@ func execR(c caseR) (overlap bool, err error) {
 			// another acknowledged upload of the same key may have replaced it
 			replaced := false
 			for j, p := range c.Ops {
-				if j != i && (p.Kind == "put" || p.Kind == "mpucomplete") && p.Key%len(raceKeys) == o.Key%len(raceKeys) && resp[j].OK() {
+				if j != i && (p.Kind == "put" || p.Kind == "put2" || p.Kind == "mpucomplete") && p.Key%len(raceKeys) == o.Key%len(raceKeys) && resp[j].OK() {
 					replaced = true
 				}
 			}
@@ -196,6 +218,41 @@ func execR(c caseR) (overlap bool, err error) {
 				// an acknowledged CreateMultipartUpload is an upload in progress: the bucket was not empty of work;
 				// S3 allows deleting a bucket with uploads in progress, so nothing is demanded here
 				_ = ack
+			}
+		}
+	}
+	// versioned bucket: every acknowledged upload is a version of its own, and a DeleteBucket that was refused must
+	// not have destroyed any of them (the version store lives outside the bucket directory). Two uploads of one
+	// key that overlap in time do not archive each other (each looked at the key before the other published):
+	// that loss is not DeleteBucket's doing and is not judged here.
+	if c.Versions && !delAck && exists {
+		isUp := func(k string) bool { return k == "put" || k == "put2" || k == "mpucomplete" }
+		for i, o := range c.Ops {
+			if !isUp(o.Kind) || !resp[i].OK() {
+				continue
+			}
+			key := raceKeys[o.Key%len(raceKeys)]
+			overlapping := false
+			for j, p := range c.Ops {
+				if j != i && isUp(p.Kind) && p.Key%len(raceKeys) == o.Key%len(raceKeys) && res[i].Call < res[j].Return && res[j].Call < res[i].Return {
+					overlapping = true
+				}
+			}
+			if overlapping {
+				continue
+			}
+			check := map[string][]byte{resp[i].Header.Get("x-amz-version-id"): body(i)}
+			if o.Kind == "put2" {
+				check[firstVid[i]] = body(i + 100)
+			}
+			for vid, want := range check {
+				if vid == "" {
+					continue
+				}
+				g := cl.MustCall("GET", "/"+b+"/"+key, s3c.Q("versionId", vid), nil, nil)
+				if g.Status != 200 || !bytes.Equal(g.Body, want) {
+					return overlap, fmt.Errorf("an upload of %q (op%d) was acknowledged as version %s and no DeleteBucket succeeded, but that version now answers %d %s%s", key, i, vid, g.Status, g.Code(), hist.String())
+				}
 			}
 		}
 	}
@@ -298,12 +355,31 @@ func TestC16Race(t *testing.T) {
 		n := rapid.IntRange(2, 4).Draw(t, "nops")
 		c.Ops = append(c.Ops, opR{Kind: "delbucket"})
 		for i := 1; i < n; i++ {
-			c.Ops = append(c.Ops, opR{Kind: rapid.SampledFrom([]string{"put", "put", "mpucomplete", "mpucreate", "mkbucket", "delbucket", "get"}).Draw(t, "kind"), Key: rapid.IntRange(0, 1).Draw(t, "key")})
+			c.Ops = append(c.Ops, opR{Kind: rapid.SampledFrom([]string{"put", "put", "put2", "mpucomplete", "mpucreate", "mkbucket", "delbucket", "get"}).Draw(t, "kind"), Key: rapid.IntRange(0, 1).Draw(t, "key")})
 		}
 		// the delete is not always the first to start
 		k := rapid.IntRange(0, n-1).Draw(t, "delpos")
 		c.Ops[0], c.Ops[k] = c.Ops[k], c.Ops[0]
 		c.Schedule = rapid.SliceOfN(rapid.IntRange(0, 5), 0, 100).Draw(t, "schedule")
+		if c.Versions && rapid.IntRange(0, 3).Draw(t, "twice") == 0 {
+			// a key written twice by one client (the first write becomes an archived version) while the bucket is being deleted
+			k := rapid.IntRange(0, 1).Draw(t, "twice_key")
+			c.Ops = []opR{{Kind: "delbucket"}, {Kind: "put2", Key: k}}
+			if rapid.Bool().Draw(t, "twice_more") {
+				c.Ops = append(c.Ops, opR{Kind: rapid.SampledFrom([]string{"put", "get", "mpucreate"}).Draw(t, "twice_other"), Key: 1 - k})
+			}
+		}
+		if rapid.Bool().Draw(t, "stall") {
+			// one operation (mostly the DeleteBucket) stalls after one of its steps while the others overtake it
+			c.Stall = make([]int, len(c.Ops))
+			c.StallAt = make([]int, len(c.Ops))
+			for i, o := range c.Ops {
+				if o.Kind == "delbucket" || rapid.IntRange(0, 5).Draw(t, "stall_other") == 0 {
+					c.Stall[i] = rapid.SampledFrom([]int{0, 3, 8, 20, 40, 80}).Draw(t, "stall_moves")
+					c.StallAt[i] = rapid.SampledFrom([]int{0, 1, 1, 2, 3, 6}).Draw(t, "stall_at")
+				}
+			}
+		}
 		if rapid.IntRange(0, 3).Draw(t, "fresh") == 0 {
 			// competing creations of a bucket that does not exist yet
 			c.Fresh = true
@@ -318,7 +394,7 @@ func TestC16Race(t *testing.T) {
 		for _, o := range c.Ops {
 			shape += o.Kind[:3] + ","
 		}
-		ev.Case(fmt.Sprintf("R|%v|%s|%v", c.Versions, shape, c.Schedule), overlap, "race:"+shape)
+		ev.Case(fmt.Sprintf("R|%v|%s|%v|%v", c.Versions, shape, c.Schedule, append(append([]int{}, c.Stall...), c.StallAt...)), overlap, "race:"+shape)
 		ev.Sample("race", 2, c)
 		if err != nil {
 			if strings.HasPrefix(err.Error(), "SETUP") {
